@@ -356,7 +356,7 @@ CHECKS = {
     "C13": {"run": run_C13, "level": "model_checking"},
     "C15": {"run": run_C15, "level": "model_checking"},
     "C16": {"run": run_C16, "level": "model_checking"},
-    "C17": {"run": run_C17, "level": "model_checking"},
+    "C17": {"run": run_C17, "level": "model_checking", "exhaustive": True},   # every state of the finite constructor-input space is executed
     "C18": {"run": run_C18, "level": "model_checking"},
     "C19": {"run": run_C19, "level": "model_checking"},
     "C20": {"run": run_C20, "level": "model_checking"},
@@ -424,7 +424,7 @@ def finish(pid, spec, tier, seed, results, wall):
         "stages": [{"name": s.name, "states": s.states, "transitions": s.transitions, "executions": s.evaluations,
                     "traces": s.traces, "distinct": len(s.distinct), "wall_s": round(s.wall, 1), "notes": s.notes,
                     "negative_configs": s.negatives} for s in results],
-        "exhaustive": False,
+        "exhaustive": bool(spec.get("exhaustive")) and all(s.notes.get("exhaustive", True) is not False for s in results),
         "known_findings_observed": sorted(known_hit.keys()),
     }
     ev = {
